@@ -164,6 +164,10 @@ pub fn run(tier: Tier) -> i32 {
 pub fn replay_open_findings(ev: &mut Evidence, findings: &Findings, prop: &str, judge: &dyn Fn(&RawModel, &Profile) -> Option<String>) {
     for f in findings.findings.iter().filter(|f| f.status == "open" && f.properties.iter().any(|p| p == prop)) {
         let Some(repro) = &f.repro else { continue };
+        // the stored signature belongs to one check; other properties only mask the gate
+        if !f.signatures.iter().any(|s| s.starts_with(&format!("{prop} "))) {
+            continue;
+        }
         let path = std::path::Path::new(VERIF).join(repro);
         let Ok(text) = std::fs::read_to_string(&path) else { continue };
         let Ok(v) = serde_json::from_str::<serde_json::Value>(&text) else { continue };
